@@ -61,6 +61,90 @@ type rule struct {
 	expr *node
 }
 
+// ------------------------------------------------------------------ bounded-exhaustive enumeration
+
+// enumBodies: every body of at most `size` nodes over the leaves lit, "" and a reference to each rule, the unary
+// operators ? * + & ! and the binary ones (sequence, choice of two).
+func enumBodies(names []string, size int) []*node {
+	bySize := map[int][]*node{}
+	var leaves []*node
+	leaves = append(leaves, &node{tag: "lit"}, &node{tag: "lit", flag: true})
+	for _, n := range names {
+		leaves = append(leaves, &node{tag: "ref", name: n})
+	}
+	bySize[1] = leaves
+	for sz := 2; sz <= size; sz++ {
+		var out []*node
+		for _, k := range bySize[sz-1] {
+			for _, u := range []string{"opt", "star", "plus", "and", "not"} {
+				out = append(out, &node{tag: u, kids: []*node{k}})
+			}
+		}
+		for i := 1; i <= sz-2; i++ {
+			for _, a := range bySize[i] {
+				for _, b := range bySize[sz-1-i] {
+					out = append(out, &node{tag: "seq", kids: []*node{a, b}}, &node{tag: "ch", kids: []*node{a, b}})
+				}
+			}
+		}
+		bySize[sz] = out
+	}
+	var all []*node
+	for sz := 1; sz <= size; sz++ {
+		all = append(all, bySize[sz]...)
+	}
+	return all
+}
+
+// enumCases prints, for 2 rules with bodies of at most 3 nodes and for 3 rules with bodies of at most 2 nodes, EVERY grammar,
+// each in grammar order and in reverse order (the order in which the analysis meets the rules); -stride / -offset select a
+// residue class of the enumeration.
+func enumCases(stride, offset uint64, w *bufio.Writer) {
+	id := 1
+	var k uint64
+	emit := func(names []string, bodies []*node, idx []int) {
+		defer func() { k++ }()
+		if stride > 1 && k%stride != offset%stride {
+			return
+		}
+		var gs strings.Builder
+		gs.WriteString(strconv.Itoa(len(names)))
+		for i, nm := range names {
+			gs.WriteByte(' ')
+			gs.WriteString(hx(nm))
+			bodies[idx[i]].write(&gs)
+		}
+		rev := append([]string{}, names...)
+		for a, b := 0, len(rev)-1; a < b; a, b = a+1, b-1 {
+			rev[a], rev[b] = rev[b], rev[a]
+		}
+		for _, o := range [][]string{names, rev} {
+			fmt.Fprintf(w, "mid %d %s %d", id, gs.String(), len(o))
+			for _, nm := range o {
+				fmt.Fprintf(w, " %s", hx(nm))
+			}
+			fmt.Fprintln(w)
+			id++
+		}
+	}
+	two := []string{"A", "B"}
+	b2 := enumBodies(two, 3)
+	for i := range b2 {
+		for j := range b2 {
+			emit(two, b2, []int{i, j})
+		}
+	}
+	three := []string{"A", "B", "C"}
+	b3 := enumBodies(three, 2)
+	for i := range b3 {
+		for j := range b3 {
+			for l := range b3 {
+				emit(three, b3, []int{i, j, l})
+			}
+		}
+	}
+}
+
 // ------------------------------------------------------------------ generator
 
 type gen struct {
@@ -637,6 +721,9 @@ func acceptCase(line string) string {
 
 func main() {
 	var (
+		doEnum = flag.Bool("enum", false, "print the bounded-exhaustive enumeration of small grammars (see enumCases)")
+		stride = flag.Uint64("stride", 1, "with -enum: print every stride-th grammar")
+		offset = flag.Uint64("offset", 0, "with -enum: the residue class")
 		doAcc  = flag.Bool("accept", false, "verdict of PrepareGrammar next to what BuildParser does without / with SupportLeftRecursion")
 		doDup  = flag.Bool("dup", false, "verdict of PrepareGrammar with and without shadowed duplicate definitions of non-first rules")
 		doGen  = flag.Bool("gen", false, "generate cases")
@@ -649,6 +736,10 @@ func main() {
 	flag.Parse()
 	w := bufio.NewWriterSize(os.Stdout, 1<<20)
 	defer w.Flush()
+	if *doEnum {
+		enumCases(*stride, *offset, w)
+		return
+	}
 	if *doGen {
 		genCases(*seed, *n, *throws, w)
 		return
